@@ -37,7 +37,7 @@ def replay(ctx, path):
     print(f"  input: {str(d.get('text'))[:1000]}")
     print(f"  reported: {str(d.get('detail'))[:1500]}")
     rec = d.get("record")
-    if not (isinstance(rec, dict) and rec.get("kind") in TRACE_KINDS and ("pp" in rec or rec.get("kind") in ("roundtrip", "fixloop", "analyze"))):
+    if not (isinstance(rec, dict) and rec.get("kind") in TRACE_KINDS and ("pp" in rec or "exp" in rec or rec.get("kind") in ("roundtrip", "fixloop", "analyze"))):
         print("  (this record is a process run / text-level finding: re-run the command shown above against the binary to reproduce it)")
         return 1
     V.build()
